@@ -228,6 +228,7 @@ const HARNESS_TRADER: u32 = 4_000_000_000;
 
 #[derive(Default, Clone, Debug)]
 pub struct AgentFeatures {
+    pub audited_slots: u64,
     pub instructions: u64,
     pub limit_orders: u64,
     pub market_orders: u64,
@@ -442,8 +443,36 @@ fn run_agent_inner(c: &AgentCase, feat: &mut AgentFeatures) -> Result<(), Failur
             kinds |= 2
         }
         // ---- the step
+        let step_start = env.dynenv().time();
         env.dynenv_mut().step(&mut rng);
         let post = env.dynenv().get_orders(a);
+        // ---- instruction-count audit: the i-th processed instruction is stamped start+i, so the positions
+        // revealed by this step's new orders (arrival time) and effective cancellations (end time) must cover
+        // 0..=max except for cancellations that lost a race: a hole is legitimate only if one of the agent's
+        // orders that was Active when the agent looked was filled during this step. Any other hole is an
+        // instruction that is neither a new order nor a cancellation of an order that was active.
+        {
+            let mut revealed: std::collections::BTreeSet<u64> = Default::default();
+            let mut lost_races = 0u64;
+            for (x, y) in after[a].iter().zip(post.iter()) {
+                if x.status == St::New {
+                    revealed.insert(y.arr_time.wrapping_sub(step_start));
+                } else if x.status == St::Active && y.status == St::Cancelled {
+                    revealed.insert(y.end_time.wrapping_sub(step_start));
+                } else if x.status == St::Active && y.status == St::Filled && own.contains(&x.id) {
+                    lost_races += 1;
+                }
+            }
+            if let Some(max) = revealed.iter().next_back().cloned() {
+                if max < 1_000_000 {
+                    let holes = (max + 1) - revealed.len() as u64;
+                    if holes > lost_races {
+                        return Err(fail("C16 agent submitted an instruction that is neither a new order nor a cancellation of an active order", step, format!("processed positions {:?} of this step leave {} unexplained slot(s); only {} of the agent's active orders were filled during the step", revealed, holes, lost_races)));
+                    }
+                    feat.audited_slots += max + 1;
+                }
+            }
+        }
         let (p_cancel, is_random, act) = match &c.spec {
             AgentSpec::Noise { p_cancel, .. } | AgentSpec::Momentum { p_cancel, .. } => (prob(*p_cancel), false, 0.0),
             AgentSpec::Random { activity, .. } => (0.0, true, prob(*activity)),
@@ -537,6 +566,7 @@ pub fn outcome_c16(c: &AgentCase) -> Outcome {
                     ("buy_price_clamped_to_0", f.clamped_low),
                     ("sell_price_clamped_to_top_of_grid", f.clamped_high),
                     ("momentum_updates_at_saturated_demand", f.momentum_saturated),
+                    ("instruction_slots_audited", f.audited_slots),
                     ("momentum_updates_on_imposed_paths", f.momentum_imposed_updates),
                 ],
                 result: res.err(),
